@@ -373,6 +373,10 @@ func genC09(r *RNG, tier string) []Case {
 		v2 := i%3 != 0
 		args := fmt.Sprintf("kind=rowsev k=%s v2=%d idw4=%d id=%d rflags=%d extra=%s cols=%s pb=%s pa=%s rows=%s%s%s", c.kind, b2i(v2), b2i(idw4), id, c.flags,
 			hx(c.extra), colsTok(t.cols), bitsStr(c.pb), bitsStr(c.pa), strings.Join(rs, "~"), metaTok(r), ct)
+		if i%2 == 1 {
+			// the unused bits of every bitmap's last byte set, as real masters leave them
+			args += " pad=1"
+		}
 		types := make([]byte, len(t.cols))
 		md := make([]uint16, len(t.cols))
 		for k, col := range t.cols {
